@@ -77,12 +77,12 @@ PROP = {
     "classify": classify,
     "rule": "stack: the bare handler and each of 18 configured middlewares (Timeout 1h / Timeout 0, CorrelationID, Recoverer, "
             "IgnoreErrors x4 lists, InstantAck, Throttle, closed CircuitBreaker, DelayOnError x3 configurations, Retry MaxRetries "
-            "0..3; plus 2 DelayOnError configurations with init>max on a small sample) x 20 handler results (outputs with/without/with-empty correlation id, plain / "
+            "0..3; plus 2 DelayOnError configurations with init>max on a small sample) x 23 handler results (outputs with/without/with-empty correlation id, plain / "
             "pkg-errors-wrapped / fmt-%w-wrapped / nested errors, panics with string, empty string, error and nil) x 84 messages "
             "(context live / cancelled / with deadline; correlation id absent / empty / set; delay metadata absent / 2µs / empty / "
             "unparseable; handler rewrites the incoming correlation id or not; plus 12 messages with a caller-set deadline beyond every Timeout (1000h) "
             "and/or acked / nacked before they enter the chain), exhaustively; results now 20: also an error of a slice type (not "
-            "comparable / hashable) plain, pkg-wrapped and unlisted, and a panic with a []string value; the handler classifies the "
+            "comparable / hashable) plain, pkg-wrapped and unlisted, a panic with a []string value, and the context sentinels context.DeadlineExceeded / context.Canceled plain, pkg-wrapped and %w-wrapped (a handler reporting its per-attempt context's error; scripts with 2..4 such failures in a row under Retry); the handler classifies the "
             "deadline it sees (none / within the Timeouts' horizon / later) and the settlement (none / acked / nacked); every ordered pair and (enumerated by kind, with Retry at each position) ordered triples "
             "with at most one Retry, multi-attempt scripts (fail k times then succeed / panic / listed-unlisted mixes) and "
             "messages drawn from the seed. Observed per case: result, and for every handler invocation Deadline() ok, ctx.Err(), "
